@@ -40,12 +40,13 @@ ParserOp(a) ==
     /\ a.sig \in {"ok", "bitflip", "otherkey"}
     /\ a.dv # "toolarge"             \* the delta size limit is varied through the configuration
 
-\* the update rule "next commitment differs from the current key's" needs its own deviation
-ReuseSigning == [Default("update") EXCEPT !.nuv = "reuse_signing"]
+\* the update rule "next commitment differs from the current key's" needs its own deviations: the
+\* signing key's commitment under the algorithm of the request, or under the other configured one
+ReuseSigning == {[Default("update") EXCEPT !.nuv = v] : v \in {"reuse_signing", "reuse_signing_other_alg"}}
 
 RequestDevs(n) == {a \in DevN({Default(ty) : ty \in OpTypes}, n) : ParserOp(a)}
                      \cup {[Default("create") EXCEPT !.type = "bogus"]}
-                     \cup (IF n >= 1 THEN {ReuseSigning} ELSE {})
+                     \cup (IF n >= 1 THEN ReuseSigning ELSE {})
 
 Cases ==
     {[o |-> Resolve(a, 1), c |-> BaseCfg] : a \in RequestDevs(MaxDev)}
@@ -71,7 +72,7 @@ ConfigAccepts(o, c) ==
 \* that signs this very operation (update: nuv = "reuse_signing"; recover: wf = "reuse")
 CommitmentsDistinct(o) ==
     CASE o.type \in {"create", "recover"} -> o.nu # o.nr
-      [] o.type = "update" -> o.nuv # "reuse_signing"
+      [] o.type = "update" -> o.nuv \notin {"reuse_signing", "reuse_signing_other_alg"}
       [] OTHER -> TRUE
 
 ParseAccept(o, c) ==
